@@ -1,8 +1,10 @@
 (* C03: convert(b, T) for b : Bytes[N] / String[N], N = 1..32, to every word type the rules allow, both front ends
-   (2704 templates each).  For every memory and every pointer whose length word is len (0 <= len <= N) the template returns
-   exactly conv_spec of the len bytes actually present -- whatever the padding after the data is -- or reverts;
-   the only exception is len = 0 with a signed target, where the result is right iff the stale data word has a clear
-   top bit (bytes_convert_empty_signed_refuted; reported as a finding). *)
+   (2704 templates each).  For every memory and every pointer whose length word is len (0 <= len <= N), and EVERY content
+   of the data word beyond the first len bytes (dirty padding, stale bytes of a longer earlier value), the template returns
+   exactly conv_spec of the len bytes actually present (zero-/sign-extension of exactly those bytes; 0 for len = 0), or
+   reverts when that value is out of range.  No precondition on the data word.
+   (Before 762c8bd the signed targets returned -1 for an empty bytestring over a stale word with the top bit set: finding
+   convert-empty-bytes-signed-stale, found by this proof; the glue probe of that name stays as a regression.) *)
 From Coq Require Import ZArith Bool List String Lia.
 From Verif Require Import Base.Word256 C03.LIR C03.VSL C03.LIRMem C03.VSLMem C03.ArithSpec C03.ConvSpec C03.WordArith C03.TieBase
   C03.ConvExact C03.ConvTie C03.BytesConv C03.BytesConvTie C03.GenBytesConv C03.TieBytesConv.
@@ -11,10 +13,9 @@ Open Scope Z_scope.
 
 Theorem legacy_bytes_convert_exact : forall s N Tout t, In (s, N, Tout, t) legacy_bconverts ->
   forall mem bp len dw, 0 <= len <= N -> mem bp = len -> mem (w_add bp (wrap 32)) = dw -> uword dw ->
-  (len = 0 -> signed_target Tout = true -> dw < HALF) ->
   mleval mem [("b"%string, bp)] t = c_enc_out Tout (conv_spec (blen_ty len) Tout (bval len dw)).
 Proof.
-  intros s N Tout t HIn mem bp len dw Hl Hlen Hdw Rdw Clean.
+  intros s N Tout t HIn mem bp len dw Hl Hlen Hdw Rdw.
   pose proof tie_bconvert_legacy as Tie. rewrite forallb_forall in Tie. specialize (Tie _ HIn).
   unfold btie_one in Tie. apply andb_true_iff in Tie. destruct Tie as [Tie E]. apply andb_true_iff in Tie. destruct Tie as [Tie Ok].
   apply andb_true_iff in Tie. destruct Tie as [_ Al]. apply mlir_eqb_eq in E. subst t.
@@ -24,10 +25,9 @@ Print Assumptions legacy_bytes_convert_exact.
 
 Theorem venom_bytes_convert_exact : forall s N Tout t, In (s, N, Tout, t) venom_bconverts ->
   forall mem bp len dw, 0 <= len <= N -> mem bp = len -> mem (w_add bp (wrap 32)) = dw -> uword dw ->
-  (len = 0 -> signed_target Tout = true -> dw < HALF) ->
   mvrun mem [("%1"%string, bp)] t = c_enc_out Tout (conv_spec (blen_ty len) Tout (bval len dw)).
 Proof.
-  intros s N Tout t HIn mem bp len dw Hl Hlen Hdw Rdw Clean.
+  intros s N Tout t HIn mem bp len dw Hl Hlen Hdw Rdw.
   pose proof tie_bconvert_venom as Tie. rewrite forallb_forall in Tie. specialize (Tie _ HIn).
   unfold vbtie_one in Tie. apply andb_true_iff in Tie. destruct Tie as [Tie E]. apply andb_true_iff in Tie. destruct Tie as [Tie Ok].
   apply andb_true_iff in Tie. destruct Tie as [_ Al]. apply mvtemplate_eqb_eq in E. subst t.
@@ -35,24 +35,61 @@ Proof.
 Qed.
 Print Assumptions venom_bytes_convert_exact.
 
-(* dirty-padding independence, stated explicitly: two data words with the same len leading bytes give the same result *)
+(* dirty-padding / stale-byte independence, stated explicitly: two data words with the same len leading bytes
+   (any len in 0..N; for len = 0 ANY two words) give the same result, in both pipelines *)
 Corollary bytes_convert_padding_independent : forall s N Tout t, In (s, N, Tout, t) legacy_bconverts ->
-  forall mem1 mem2 bp len, 1 <= len <= N -> mem1 bp = len -> mem2 bp = len ->
+  forall mem1 mem2 bp len, 0 <= len <= N -> mem1 bp = len -> mem2 bp = len ->
   uword (mem1 (w_add bp (wrap 32))) -> uword (mem2 (w_add bp (wrap 32))) ->
   bval len (mem1 (w_add bp (wrap 32))) = bval len (mem2 (w_add bp (wrap 32))) ->
   mleval mem1 [("b"%string, bp)] t = mleval mem2 [("b"%string, bp)] t.
 Proof.
   intros s N Tout t HIn mem1 mem2 bp len Hl H1 H2 U1 U2 E.
-  rewrite (legacy_bytes_convert_exact s N Tout t HIn mem1 bp len _ ltac:(lia) H1 eq_refl U1 ltac:(lia)).
-  rewrite (legacy_bytes_convert_exact s N Tout t HIn mem2 bp len _ ltac:(lia) H2 eq_refl U2 ltac:(lia)).
+  rewrite (legacy_bytes_convert_exact s N Tout t HIn mem1 bp len _ Hl H1 eq_refl U1).
+  rewrite (legacy_bytes_convert_exact s N Tout t HIn mem2 bp len _ Hl H2 eq_refl U2).
+  rewrite E. reflexivity.
+Qed.
+Corollary venom_bytes_convert_padding_independent : forall s N Tout t, In (s, N, Tout, t) venom_bconverts ->
+  forall mem1 mem2 bp len, 0 <= len <= N -> mem1 bp = len -> mem2 bp = len ->
+  uword (mem1 (w_add bp (wrap 32))) -> uword (mem2 (w_add bp (wrap 32))) ->
+  bval len (mem1 (w_add bp (wrap 32))) = bval len (mem2 (w_add bp (wrap 32))) ->
+  mvrun mem1 [("%1"%string, bp)] t = mvrun mem2 [("%1"%string, bp)] t.
+Proof.
+  intros s N Tout t HIn mem1 mem2 bp len Hl H1 H2 U1 U2 E.
+  rewrite (venom_bytes_convert_exact s N Tout t HIn mem1 bp len _ Hl H1 eq_refl U1).
+  rewrite (venom_bytes_convert_exact s N Tout t HIn mem2 bp len _ Hl H2 eq_refl U2).
   rewrite E. reflexivity.
 Qed.
 
-Theorem bytes_convert_empty_signed_defect :
-  exists mem bp, mem bp = 0 /\ uword (mem (w_add bp (wrap 32))) /\
-    mleval mem [("b"%string, bp)] (m_bconvert 32 (CNum (Build_nty 32 true false))) = Val (wrap (-1)) /\
-    conv_spec (blen_ty 0) (CNum (Build_nty 32 true false)) 0 = Val 0.
-Proof. exact bytes_convert_empty_signed_refuted. Qed.
+(* the empty bytestring converts to 0 (False, the zero address, zero bytesM) whatever the stale data word is *)
+Definition empty_zero (Tout : cty) : bool :=
+  match c_enc_out Tout (conv_spec (blen_ty 0) Tout 0) with Val 0 => true | _ => false end.
+Lemma empty_zero_legacy : forallb (fun p => match p with (_, _, Tout, _) => empty_zero Tout end) legacy_bconverts = true.
+Proof. vm_compute. reflexivity. Qed.
+Lemma empty_zero_venom : forallb (fun p => match p with (_, _, Tout, _) => empty_zero Tout end) venom_bconverts = true.
+Proof. vm_compute. reflexivity. Qed.
+
+Theorem legacy_bytes_convert_empty : forall s N Tout t, In (s, N, Tout, t) legacy_bconverts ->
+  forall mem bp, mem bp = 0 -> uword (mem (w_add bp (wrap 32))) -> mleval mem [("b"%string, bp)] t = Val 0.
+Proof.
+  intros s N Tout t HIn mem bp H0 U.
+  pose proof tie_bconvert_legacy as Tie. rewrite forallb_forall in Tie. specialize (Tie _ HIn).
+  unfold btie_one in Tie. repeat (apply andb_true_iff in Tie; destruct Tie as [Tie ?]).
+  assert (1 <= N) by (unfold bconv_allowed in *; lia).
+  rewrite (legacy_bytes_convert_exact s N Tout t HIn mem bp 0 _ ltac:(lia) H0 eq_refl U). rewrite bval_0 by exact U.
+  pose proof empty_zero_legacy as Z0. rewrite forallb_forall in Z0. specialize (Z0 _ HIn). cbn beta iota in Z0.
+  unfold empty_zero in Z0. destruct (c_enc_out Tout _) as [[| |]| | |]; try discriminate Z0. reflexivity.
+Qed.
+Theorem venom_bytes_convert_empty : forall s N Tout t, In (s, N, Tout, t) venom_bconverts ->
+  forall mem bp, mem bp = 0 -> uword (mem (w_add bp (wrap 32))) -> mvrun mem [("%1"%string, bp)] t = Val 0.
+Proof.
+  intros s N Tout t HIn mem bp H0 U.
+  pose proof tie_bconvert_venom as Tie. rewrite forallb_forall in Tie. specialize (Tie _ HIn).
+  unfold vbtie_one in Tie. repeat (apply andb_true_iff in Tie; destruct Tie as [Tie ?]).
+  assert (1 <= N) by (unfold bconv_allowed in *; lia).
+  rewrite (venom_bytes_convert_exact s N Tout t HIn mem bp 0 _ ltac:(lia) H0 eq_refl U). rewrite bval_0 by exact U.
+  pose proof empty_zero_venom as Z0. rewrite forallb_forall in Z0. specialize (Z0 _ HIn). cbn beta iota in Z0.
+  unfold empty_zero in Z0. destruct (c_enc_out Tout _) as [[| |]| | |]; try discriminate Z0. reflexivity.
+Qed.
 
 Theorem bytes_convert_family_complete :
   bkeys_eqb (map bkey legacy_bconverts) bconv_keys = true /\ bkeys_eqb (map bkey venom_bconverts) bconv_keys = true.
